@@ -14,6 +14,7 @@ package telemetry
 import (
 	"bufio"
 	"context"
+	"errors"
 	"fmt"
 	"math"
 	"os"
@@ -706,6 +707,318 @@ func vfConc(f []string) string {
 	return "conc " + strings.Join(obs, " | ")
 }
 
+// ---------------------------------------------------------------- concurrent registration
+//
+//	reg <cap> <rounds> <noise> <pre> <name@kind@nlabels@prog>...
+//
+// every goroutine is released by the barrier straight into Register{Counter,Gauge,Histogram}; the ones that are
+// told "ok" then run their program on the metric object THEY obtained.  The observation is taken from the object
+// the registry maps the name to (what AppendSnapshot walks).
+type vfRegThread struct {
+	name string
+	kind string
+	nl   int
+	prog []vfOp
+}
+
+type vfRegOut struct {
+	res string // ok | etype | eschema | panic | eother
+	m   *vfMetric
+	ops []vfRes
+}
+
+func vfRegister(r *Registry, name, kind string, nl, cap int) (res string, m *vfMetric) {
+	defer func() {
+		if rec := recover(); rec != nil {
+			res, m = "panic", nil
+		}
+	}()
+	labels := make([]string, nl)
+	for i := range labels {
+		labels[i] = "l" + strconv.Itoa(i)
+	}
+	m = &vfMetric{kind: kind, r: r}
+	var err error
+	switch kind {
+	case "c":
+		m.c, err = r.RegisterCounter(CounterOpts{Name: name, Help: "h", Labels: labels, MaxSeriesPerMetric: cap})
+	case "g":
+		m.g, err = r.RegisterGauge(GaugeOpts{Name: name, Help: "h", Labels: labels, MaxSeriesPerMetric: cap})
+	default:
+		m.h, err = r.RegisterHistogram(HistogramOpts{Name: name, Help: "h", Labels: labels, Buckets: []float64{1, 5}, MaxSeriesPerMetric: cap})
+	}
+	switch {
+	case err == nil:
+		return "ok", m
+	case errors.Is(err, ErrTypeMismatch):
+		return "etype", nil
+	case errors.Is(err, ErrSchemaMismatch):
+		return "eschema", nil
+	}
+	return "eother", nil
+}
+
+func (m *vfMetric) obj() any {
+	switch m.kind {
+	case "c":
+		return m.c
+	case "g":
+		return m.g
+	default:
+		return m.h
+	}
+}
+
+func (x vfHandle) parent() any {
+	switch {
+	case x.c != nil:
+		return x.c.counter
+	case x.g != nil:
+		return x.g.gauge
+	default:
+		return x.h.histogram
+	}
+}
+
+type vfRegPool struct {
+	ths     []vfRegThread
+	cap     int
+	reg     atomic.Pointer[Registry]
+	roundNo atomic.Int64
+	done    atomic.Int32
+	out     []vfRegOut
+	wg      sync.WaitGroup
+}
+
+func vfNewRegPool(ths []vfRegThread, cap int) *vfRegPool {
+	p := &vfRegPool{ths: ths, cap: cap, out: make([]vfRegOut, len(ths))}
+	for i := range ths {
+		p.wg.Add(1)
+		go func(i int) {
+			defer p.wg.Done()
+			last := int64(0)
+			t := p.ths[i]
+			for {
+				spins := 0
+				for p.roundNo.Load() == last {
+					vfSpin(&spins)
+				}
+				last = p.roundNo.Load()
+				if last < 0 {
+					return
+				}
+				var o vfRegOut
+				o.res, o.m = vfRegister(p.reg.Load(), t.name, t.kind, t.nl, p.cap)
+				if o.res == "ok" {
+					o.ops, _ = vfExec(o.m, t.prog, nil)
+				}
+				p.out[i] = o
+				p.done.Add(1)
+			}
+		}(i)
+	}
+	return p
+}
+
+func vfRegRound(p *vfRegPool, noise, pre bool) string {
+	r := NewRegistry()
+	r.SetTickInterval(24 * time.Hour)
+	defer r.Shutdown(context.Background())
+	preObj := map[string]any{}
+	var names []string
+	seenName := map[string]bool{}
+	for _, t := range p.ths {
+		if !seenName[t.name] {
+			seenName[t.name] = true
+			names = append(names, t.name)
+			if pre {
+				if res, m := vfRegister(r, t.name, t.kind, t.nl, p.cap); res == "ok" {
+					preObj[t.name] = m.obj()
+				}
+			}
+		}
+	}
+	sort.Strings(names)
+	stopNoise := make(chan struct{})
+	var nwg sync.WaitGroup
+	if noise {
+		nwg.Add(1)
+		started := make(chan struct{})
+		go func() {
+			defer nwg.Done()
+			stuck := r.Subscribe(SubscribeOptions{BufferSize: 1})
+			defer stuck.Unsubscribe()
+			close(started)
+			var buf []Sample
+			for {
+				select {
+				case <-stopNoise:
+					return
+				default:
+				}
+				sub := r.Subscribe(SubscribeOptions{BufferSize: 2})
+				buf = r.AppendSnapshot(buf[:0], SnapshotOptions{})
+				r.publishTick(nil, time.Unix(0, 0))
+				_ = r.MetricCount()
+				sub.Unsubscribe()
+			}
+		}()
+		<-started
+	}
+	p.reg.Store(r)
+	p.done.Store(0)
+	p.roundNo.Add(1)
+	spins := 0
+	for int(p.done.Load()) < len(p.ths) {
+		vfSpin(&spins)
+	}
+	close(stopNoise)
+	nwg.Wait()
+
+	var parts []string
+	for _, name := range names {
+		var regObj any
+		var rm *vfMetric
+		if v, ok := r.metrics.Load(name); ok {
+			regObj = v
+			switch x := v.(type) {
+			case *Counter:
+				rm = &vfMetric{kind: "c", r: r, c: x}
+			case *Gauge:
+				rm = &vfMetric{kind: "g", r: r, g: x}
+			case *Histogram:
+				rm = &vfMetric{kind: "h", r: r, h: x}
+			}
+		}
+		distinct := map[any]bool{}
+		allSame := true
+		if o, ok := preObj[name]; ok {
+			distinct[o] = true
+			if o != regObj {
+				allSame = false
+			}
+		}
+		for i, t := range p.ths {
+			if t.name == name && p.out[i].res == "ok" {
+				distinct[p.out[i].m.obj()] = true
+				if p.out[i].m.obj() != regObj {
+					allSame = false
+				}
+			}
+		}
+		inMap := map[any]bool{}
+		seen := map[any]vfHandle{}
+		var live []string
+		var c int64
+		var d, u, st uint64
+		if rm != nil {
+			type ent struct {
+				tup string
+				h   vfHandle
+			}
+			var es []ent
+			rm.series().Range(func(_, v any) bool {
+				h := rm.wrap(v)
+				es = append(es, ent{vfTupleTok(h.labelValues()), h})
+				inMap[h.key()] = true
+				seen[h.key()] = h
+				return true
+			})
+			sort.Slice(es, func(i, j int) bool { return es[i].tup < es[j].tup })
+			for _, e := range es {
+				live = append(live, e.tup+":"+strconv.FormatUint(e.h.scalar(), 10))
+			}
+			mi := regObj.(metric)
+			c, d, u, st = mi.seriesCountLoad(), mi.cardinalityDropsLoad(), mi.unknownSeriesEmitsLoad(), mi.staleHandleEmitsLoad()
+		}
+		var tparts []string
+		var total uint64
+		for i, t := range p.ths {
+			if t.name != name {
+				continue
+			}
+			o := p.out[i]
+			fields := []string{o.res}
+			if o.res == "ok" {
+				total += vfWeight(t.kind, [][]vfOp{t.prog})
+				for j, rr := range o.ops {
+					if rr.code != "h" {
+						fields = append(fields, rr.code)
+						continue
+					}
+					if rr.h.tomb() {
+						fields = append(fields, "t")
+						continue
+					}
+					cls := "o"
+					switch {
+					case rr.h.parent() != regObj:
+						cls = "O" // a series of a metric object the registry does not know: no snapshot will ever see it
+					case inMap[rr.h.key()]:
+						cls = "l"
+					case rr.h.stale():
+						cls = "s"
+					}
+					if cls != "O" {
+						seen[rr.h.key()] = rr.h
+					}
+					if vfTupleTok(rr.h.labelValues()) != vfTupleTok(t.prog[j].tuple) {
+						cls = "X"
+					}
+					fields = append(fields, cls+strconv.FormatUint(rr.h.scalar(), 10))
+				}
+			}
+			tparts = append(tparts, "T"+strconv.Itoa(i)+"="+strings.Join(fields, "."))
+		}
+		var acc uint64
+		for _, h := range seen {
+			acc += h.scalar()
+		}
+		acc += d + u + st
+		same := "0"
+		if allSame {
+			same = "1"
+		}
+		parts = append(parts, name+":reg="+strconv.Itoa(len(distinct))+","+same+";m="+strings.Join(live, "+")+
+			";c="+strconv.FormatInt(c, 10)+";d="+strconv.FormatUint(d, 10)+";u="+strconv.FormatUint(u, 10)+
+			";s="+strconv.FormatUint(st, 10)+";lost="+strconv.FormatInt(int64(total-acc), 10)+";"+strings.Join(tparts, ";"))
+	}
+	return strings.Join(parts, " # ")
+}
+
+func vfReg(f []string) string {
+	cap, _ := strconv.Atoi(f[1])
+	rounds, _ := strconv.Atoi(f[2])
+	noise := f[3] == "1"
+	pre := f[4] == "1"
+	var ths []vfRegThread
+	for _, tok := range f[5:] {
+		p := strings.Split(tok, "@")
+		nl, _ := strconv.Atoi(p[2])
+		ths = append(ths, vfRegThread{name: p[0], kind: p[1], nl: nl, prog: vfProg(p[3])})
+	}
+	if runtime.GOMAXPROCS(0) < len(ths)+1 {
+		runtime.GOMAXPROCS(len(ths) + 1)
+	}
+	set := map[string]bool{}
+	pool := vfNewRegPool(ths, cap)
+	deadline := time.Now().Add(time.Duration(rounds)*150*time.Microsecond + 200*time.Millisecond)
+	for i := 0; i < rounds; i++ {
+		set[vfRegRound(pool, noise, pre)] = true
+		if i%32 == 31 && time.Now().After(deadline) {
+			break
+		}
+	}
+	pool.roundNo.Store(-1)
+	pool.wg.Wait()
+	var obs []string
+	for o := range set {
+		obs = append(obs, o)
+	}
+	sort.Strings(obs)
+	return "reg " + strings.Join(obs, " | ")
+}
+
 func TestVerifC20(t *testing.T) {
 	in, err := os.Open(os.Getenv("VERIF_CASES"))
 	if err != nil {
@@ -744,6 +1057,8 @@ func TestVerifC20(t *testing.T) {
 				done <- vfSeq(f)
 			case "conc", "rconc":
 				done <- vfConc(f)
+			case "reg", "rreg":
+				done <- vfReg(f)
 			default:
 				done <- "badline"
 			}
